@@ -463,7 +463,10 @@ func init() {
 						}
 					}
 					// names that are keywords in another letter case are names like any other
-					for _, name := range []string{"In", "Nil", "True", "False", "IN", "NIL", "tRUE", "fALSE", "iN", "nIl", "Inn", "trueish", "nilable", "If", "End", "Each", "Loop"} {
+					for _, name := range []string{"In", "Nil", "True", "False", "IN", "NIL", "tRUE", "fALSE", "iN", "nIl", "Inn", "trueish", "nilable", "If", "End", "Each", "Loop",
+						// names that begin with or consist of underscores, and words that other languages reserve
+						"_t", "_", "__html", "_2nd", "a_", "x9_y", "null", "none", "undefined", "and", "or", "not", "is", "as", "of", "this", "self", "var", "let", "func", "function", "return",
+						"each", "if", "else", "elseif", "end", "for", "use", "insert", "reserve", "component", "slot", "dump", "break", "continue", "breakIf", "continueIf", "loop", "inn", "nill", "truth", "falsey"} {
 						id := 7000 + len(name)*31 + int(name[0])
 						before := evalString(c, fmt.Sprintf("{{ %s.%s(1) }}", recvSrc, name), nil)
 						if before.Panicked {
